@@ -324,4 +324,20 @@ theorem sortBy_sorted {α} (lt : α → α → Bool)
   | nil => simp [sortBy, Sorted]
   | cons x xs ih => exact insertBy_sorted lt hasym hnt x _ ih
 
+/-! ### splitting a name into sort items -/
+
+theorem splitItems_word (w : List Char) (hw : ∀ c ∈ w, isSep c = false) (c : Char) (hc : isSep c = true)
+    (t cur : List Char) (hne : w ≠ [] ∨ cur ≠ []) :
+    splitItems (w ++ c :: t) cur = (cur.reverse ++ w) :: splitItems t [] := by
+  induction w generalizing cur with
+  | nil =>
+    have hcur : cur ≠ [] := by rcases hne with h | h; exact absurd rfl h; exact h
+    have : cur.isEmpty = false := by cases cur <;> simp_all
+    simp [splitItems, hc, this]
+  | cons x w ih =>
+    have hx : isSep x = false := hw x (by simp)
+    simp only [List.cons_append, splitItems, hx, Bool.false_eq_true, if_false]
+    rw [ih (fun c hc => hw c (by simp [hc])) (x :: cur) (Or.inr (by simp))]
+    simp
+
 end Ghist
